@@ -21,7 +21,8 @@ META = {
         'of T in the query row it was unpacked from; R4 every query the exporter issues is scoped by the one-tuple of the '
         'exported lexicon rowid (C04-R2); R5 export() runs _precheck before building anything and writes through lmf.dump; '
         'R8 no comparison in the exporter tests a stored value against a constant (the exported content of an element does not depend on its part of speech, type, ...).'),
-    'decides': ['exporter key coverage', 'version-guard consistency', 'metadata provenance', 'single-lexicon scoping', 'precheck first'],
+    'decides': ['exporter key coverage', 'version-guard consistency', 'metadata provenance', 'single-lexicon scoping', 'precheck first',
+                'exporter never switches on stored values'],
     'not_decided': ['value-level reconstruction (e.g. ili="in" for a proposed ILI without definition)', 'equality of re-imported databases'],
     'assumptions': [],
 }
